@@ -2,7 +2,7 @@
    Only statements here; proofs live in Proofs/SplitProofs.v.  Model: Model/Split.v
    (splitMessage, Event.split, Join/List, MaxEventLength) and Model/State.v
    (handle_isupport); specification vocabulary: Spec/SplitSpec.v. *)
-Require Import Bytes Utf8 AMap WireOut Ctcp State Split SplitSpec SplitUtf8 SplitProofs SplitWords SplitValid SplitContent.
+Require Import Bytes Utf8 AMap WireOut Ctcp State Split SplitSpec SplitUtf8 SplitProofs SplitWords SplitValid SplitContent SplitTokens.
 
 (* splitMessage returns for every text and every width (also <= 0): no slice is out of
    range and the word loop terminates (Panic also stands for "out of fuel"). *)
@@ -40,6 +40,19 @@ Theorem C11_fits_wire : forall e, se_tagov e = 0%nat -> (length (event_bytes e) 
 Proof. exact event_bytes_length. Qed.
 Print Assumptions C11_fits_wire.
 
+(* Put together for what Commands.Message / Notice / Action hand to Client.Send (no tags,
+   no source): every line written is at most MaxEventLength bytes when command and target
+   fit, with the same one-character boundary case. *)
+Theorem C11_send_fits : forall st e es,
+  se_tagov e = 0%nat -> se_source e = None -> se_params e <> [] -> is_msg_cmd (se_command e) = true ->
+  send st e = Ok es -> (cmd_target_len e <= max_event_length st)%Z ->
+  Forall (fun p =>
+    (Z.of_nat (length (event_bytes p)) <= max_event_length st)%Z \/
+    ((max_event_length st - cmd_target_len e < 4)%Z /\
+     (Z.of_nat (length (event_bytes p)) <= cmd_target_len e + 4)%Z)) es.
+Proof. exact send_fits_wire. Qed.
+Print Assumptions C11_send_fits.
+
 (* Pieces keep command, source, tags, every parameter but the last, and the CTCP frame
    with the same CTCP command; their payloads are splitMessage of the (CTCP) text. *)
 Theorem C11_shape : forall e max es, event_split e max = Ok es ->
@@ -69,6 +82,15 @@ Theorem C11_content : forall text w ps,
   split_message text w = Ok ps -> layout (msg_words text) ps.
 Proof. exact split_message_content. Qed.
 Print Assumptions C11_content.
+
+(* ... where these words are the tokenisation, in the relational sense of
+   Spec/SplitSpec.v `tokenised`, of the sanitised text with its edges trimmed: the text is
+   separators (TAB LF VT FF CR SPACE NEL NBSP) and words, each word non-empty, free of
+   separators and followed by a separator or the end. *)
+Theorem C11_words : forall text,
+  tokenised (trim_space (to_valid_utf8 qmark text)) (msg_words text).
+Proof. exact msg_words_tokenised. Qed.
+Print Assumptions C11_words.
 
 (* no empty piece; and no piece at all for a text without words *)
 Theorem C11_content_nonempty : forall ws ps, layout ws ps -> Forall (fun p => p <> []) ps.
